@@ -285,7 +285,7 @@ Definition run (x : sx) : sx :=
       | Some st, Some ad =>
         match ref_write st ad with
         | Some f => SL [sx_id "file"; sx_bytes f; expected_sx ad (size_of st ad);
-                        SL [sx_id "known"; sx_bool (Known_raw_eol st ad)]]
+                        SL [sx_id "known"; sx_bool (Known_raw_eol st ad); sx_bool (Known_deep_parens ad)]]
         | None => SL [sx_id "none"]
         end
       | None, _ => sx_id "badstyle"
